@@ -309,6 +309,36 @@ fn ill_typed_stmt(d: &mut Dec, p: &GProg) -> (&'static str, String) {
             ("annot-arity-closure-param-nested", format!("let _ = |q: (bool, {}{})| 1;", a.name, args))
         };
     }
+    if d.chance(16) {
+        // a builtin called with another number of arguments than it has (0 .. 4; the arguments it does
+        // get are the right ones as far as they go)
+        const V: &str = "vec_push(vec_new(), 1)";
+        const BUILTINS: [(&str, &[&str]); 16] = [
+            ("ref", &["1"]),
+            ("ref_get", &["ref(1)"]),
+            ("ref_set", &["ref(1)", "2"]),
+            ("vec_new", &[]),
+            ("vec_push", &[V, "2"]),
+            ("vec_get", &[V, "0"]),
+            ("vec_len", &[V]),
+            ("array_get", &["[1, 2]", "0"]),
+            ("array_set", &["[1, 2]", "0", "5"]),
+            ("string_len", &["\"s\""]),
+            ("string_get", &["\"s\"", "0"]),
+            ("string_println", &["\"s\""]),
+            ("string_print", &["\"s\""]),
+            ("int32_to_string", &["1"]),
+            ("bool_to_string", &["true"]),
+            ("unit_to_string", &["()"]),
+        ];
+        let (name, good) = BUILTINS[d.below(BUILTINS.len())];
+        let mut n = d.below(5);
+        if n == good.len() {
+            n = if n == 0 { 1 } else { n - 1 };
+        }
+        let args: Vec<&str> = (0..n).map(|i| if i < good.len() { good[i] } else { "1" }).collect();
+        return (if n < good.len() { "builtin-arity-few" } else { "builtin-arity-many" }, format!("let _ = {}({});", name, args.join(", ")));
+    }
     if d.chance(110) {
         return mismatch_stmt(d);
     }
